@@ -32,7 +32,8 @@ func init() {
 			"mergeRuns has a case for every MergeStrategy constant, keeps 'any' problems unconditionally and 'all' problems only when no run that checked the file lacks the descriptor, quantifying over the whole runs slice (R12.2, R12.3); " +
 			"the -f binary writer normalises checked files and both descriptor positions with the same function and clears their offsets (R12.4); runs are keyed by descriptor(), every checked file is recorded, BuildName is stamped on every problem, the merge strategy travels from the check's documentation to the problem (R12.5). " +
 			"It does NOT decide commutativity/idempotence as algebraic laws over multisets of runs." +
-			" Also decided: the reader shared by the per-run gob decoders of -merge input implements io.ByteReader (otherwise each decoder buffers ahead privately and later runs of a stream are lost).",
+			" Also decided: the reader shared by the per-run gob decoders of -merge input implements io.ByteReader (otherwise each decoder buffers ahead privately and later runs of a stream are lost)." +
+			" (*linter).run leaves no state in the linter, so the runs of a -matrix are independent.",
 		RuleText:    "comparator chain and descriptor/equality keys are extracted from the AST with symbolic resolution of local aliases; path rules on the SSA CFG",
 		Assumptions: []string{"sort.Slice orders the slice consistently with a strict weak order"},
 		Run:         runC12,
